@@ -125,7 +125,18 @@ def rule_H3(u, recipes, rep):
     """Leading literals of the type-hash recipes of different type constructors differ."""
     heads = {}
     for r in recipes:
-        if r["kind"] != "type" or is_alias_recipe(r):
+        if r["kind"] == "type" and is_alias_recipe(r):
+            # a type hash that is entirely the hash of another type makes the two indistinguishable in the header:
+            # allowed only for the documented write-only views of the vector
+            st = r["impl"].self_ty
+            is_view = (st[0] == "ref" and st[2][0] == "slice") or (st[0] == "adt" and st[1].endswith("::SerIter"))
+            rep.oblige(is_view)
+            if not is_view:
+                tgt = [p for p in r["paths"] if p[2].kind == "ret"][0][1][0][1]
+                rep.add("H3", "alias:" + r["impl"].key(), "the type hash of `%s` is entirely that of `%s`: files written as one are accepted as the other (only &[T] and SerIter are documented aliases, of Vec<T>)"
+                        % (ty_str(st), ty_str(tgt)), r["impl"].loc())
+            continue
+        if r["kind"] != "type":
             continue
         im = r["impl"]
         for (conds, feeds, p) in r["paths"]:
